@@ -115,6 +115,13 @@ def cases(ctx):
         for (u, v) in (('x', 'y'), ('y', 'x'), ('y', 'z')):
             cs.append(dict(op='treplace', table='user', tkey='repl%d%s%s' % (j, u, v), rows=r1, rows2=r2, form='list',
                            a=qj(F(5)), u=u, v=v))
+    # a pure shift (factor exactly 1) tabulated in one direction only
+    shift = [row('x', 'y', F(1), F(5)), row('z', 'y', F(1), F(45967, 100))]
+    for a in (F(5), F(0), F(-5), F(500), F(1, 3)):
+        for u, v in itertools.product('xyz', 'xyz'):
+            cs.append(dict(op='tconv', table='user', tkey='shift', rows=shift, form='list', a=qj(a), u=u, v=v, rep='frac'))
+            cs.append(dict(op='tcmp', table='user', tkey='shift', rows=shift, form='list', a=qj(a), u=u, b=qj(a + 5), v=v, c='le'))
+            cs.append(dict(op='tadd', table='user', tkey='shift', rows=shift, form='list', a=qj(a), u=u, b=qj(F(7)), v=v, sub=True))
     for j, (r1, r2) in enumerate(two):
         key = 'two%d' % j
         for a in (F(5), F(-3, 4), F(0), F(10, 3)):
